@@ -24,6 +24,8 @@ PID = "C01"
 WRAP_DEALLOC_ED = "_ZN3tbb6detail2r110deallocateERNS0_2d117small_object_poolEPvmRKNS2_14execution_dataE"
 WRAP_DEALLOC = "_ZN3tbb6detail2r110deallocateERNS0_2d117small_object_poolEPvm"
 WRAP_NOTIFY = "_ZN3tbb6detail2r114notify_waitersEm"
+WRAP_ALLOC_ED = "_ZN3tbb6detail2r18allocateERPNS0_2d117small_object_poolEmRKNS2_14execution_dataE"
+WRAP_ALLOC = "_ZN3tbb6detail2r18allocateERPNS0_2d117small_object_poolEm"
 
 
 def build(name, wraps=()):
@@ -67,11 +69,14 @@ def parse_runs(out):
         if not w:
             continue
         if w[0] == "run":
-            cur = {"ev": [], "res": {}, "mon": "", "sched": [], "x": {}}
+            cur = {"ev": [], "res": {}, "mon": "", "sched": [], "x": {}, "snap": []}
         elif cur is None:
             continue
         elif w[0] == "e":
             cur["ev"].append((int(w[1]), w[2], w[3], w[4], w[5], w[6]))
+        elif w[0] == "snap":
+            # white-box content of task_pool_ptr[head..tail) after an owner operation, with its position in the trace
+            cur["snap"].append((len(cur["ev"]), " ".join(w[1:])))
         elif w[0] == "res":
             cur["res"][int(w[1])] = w[2:]
         elif w[0] == "mon":
@@ -86,22 +91,41 @@ def parse_runs(out):
     return runs
 
 
-def model_replay(model, setup, events, results, nthreads, final=None):
+def model_replay(model, setup, events, results, nthreads, final=None, snaps=()):
     """Feed one observed access trace to a Lean model.  `setup`: driver lines describing the scenario; `events`:
-    [(tid, var, kind, a, b, ok)]; `results`: {tid: [result strings in completion order]}.
-    Returns None if the model performs the same accesses and produces the same results, else a description."""
-    lines = ["reset"] + setup + ["s %d" % e[0] for e in events] + ["state"]
+    [(tid, var, kind, a, b, ok)]; `results`: {tid: [result strings in completion order]}; `snaps`: [(position in
+    `events`, "head tail cells...")] white-box snapshots of the array content, compared with the model's `dump` at the
+    same position.  Returns None if the model performs the same accesses, holds the same content and produces the same
+    results, else a description of the FIRST divergence."""
+    snaps = sorted(snaps, key=lambda x: x[0])
+    lines, what, k = ["reset"] + setup, [], 0          # what[j] describes line 1+len(setup)+j: ("snap", text, n) | ("ev", index)
+    for i in range(len(events) + 1):
+        while k < len(snaps) and snaps[k][0] == i:
+            what.append(("snap", snaps[k][1], k))
+            lines.append("dump")
+            k += 1
+        if i < len(events):
+            what.append(("ev", i))
+            lines.append("s %d" % events[i][0])
+    lines.append("state")
     out = drv(model, "\n".join(lines) + "\n")
     for i, o in enumerate(out[:1 + len(setup)]):
         if o != "ok":
             return "model rejected scenario line %r: %s" % ((["reset"] + setup)[i], o)
     out = out[1 + len(setup):]
+    if len(out) < len(what) + 1:
+        return "model output truncated"
     got = {}
     left = {}
-    for i, e in enumerate(events):
-        if i >= len(out):
-            return "model output truncated"
-        m = [x.strip() for x in out[i].split("|")]
+    for j, wh in enumerate(what):
+        if wh[0] == "snap":
+            if out[j].split() != wh[1].split():
+                return ("content of task_pool_ptr[head..tail) after owner operation %d (head tail cells): implementation [%s], model [%s]"
+                        % (wh[2], wh[1], out[j]))
+            continue
+        i = wh[1]
+        e = events[i]
+        m = [x.strip() for x in out[j].split("|")]
         exp = "%s %s %s %s %s" % (e[1], e[2], e[3], e[4], e[5])
         if m[0] != exp:
             return "access %d (thread %d): implementation [%s], model [%s]" % (i, e[0], exp, m[0])
@@ -114,7 +138,7 @@ def model_replay(model, setup, events, results, nthreads, final=None):
             return "thread %d results: implementation %s, model %s" % (t, want, got.get(t, []))
         if t in left and left[t] != "0":
             return "thread %d: the model has %s operations left at the end of the trace" % (t, left[t])
-    st = out[len(events)]
+    st = out[len(what)]
     if final:
         d = final(st)
         if d:
@@ -192,7 +216,7 @@ def run_deque(ck, consts):
     for kind, n in (("small", 6 if quick else 40), ("mixed", 8 if quick else 60), ("iso", 8 if quick else 60), ("growth", 3 if quick else 20)):
         scs += [dict(deque_scenario(rng, kind), kind=kind) for _ in range(n)]
     nrand = 12 if quick else 40
-    bad_corr, bad_mon, nruns = [], [], 0
+    bad_corr, bad_mon, nruns, nsnap = [], [], 0, 0
     for si, sc in enumerate(scs):
         rc, out, err = sh([exe, "rand", str(ck.seed * 1000 + si), str(nrand)], input=deque_text(sc), timeout=600)
         runs = parse_runs(out)
@@ -202,8 +226,9 @@ def run_deque(ck, consts):
             ck.count(1, ("deque", sc.get("kind", "corpus"), nth, tuple(sorted(set((e[1], e[2], e[5]) for e in r["ev"]))), tuple(len(v) for v in r["res"].values())))
             if r["mon"] != "ok":
                 bad_mon.append((sc, r))
-            d = model_replay("c01dq", deque_setup(sc, consts), r["ev"], r["res"], nth,
+            d = model_replay("c01dq", deque_setup(sc, consts), r["ev"], r["res"], nth, snaps=r["snap"],
                              final=lambda st: None if st.split()[3] == "0" else "the model read a junk cell / broke the lock protocol")
+            nsnap += len(r["snap"])
             ck.traces_validated += 1
             if d:
                 bad_corr.append((sc, r, d))
@@ -223,11 +248,12 @@ def run_deque(ck, consts):
             rs = parse_runs(out)
             bad_mon.append((sc, rs[-1] if rs else {"mon": "harness rc=%d %s" % (rc, (out + err)[-300:]), "sched": []}))
     ck.evaluations += dfs_runs
-    ck.extra.setdefault("schedules", {})["deque"] = {"random_runs": nruns, "dfs_runs": dfs_runs, "scenarios": len(scs)}
-    ok_corr = ck.oblige("corr:deque head/tail/task_pool access trace replays on the Lean Deque model (accesses, values, returned task ids)",
+    ck.extra.setdefault("schedules", {})["deque"] = {"random_runs": nruns, "dfs_runs": dfs_runs, "scenarios": len(scs),
+                                                     "content_snapshots_compared": nsnap}
+    ok_corr = ck.oblige("corr:deque head/tail/task_pool access trace replays on the Lean Deque model (accesses, values, returned task ids; white-box content of task_pool_ptr[head..tail) after every owner operation)",
                         "correspondence", not bad_corr,
                         "" if not bad_corr else "%s | scenario %s | sched %s" % (bad_corr[0][2], deque_text(bad_corr[0][0]).replace("\n", " / "), " ".join(bad_corr[0][1]["sched"])))
-    ck.oblige("monitor:deque every spawned task handed out exactly once (get_task / steal_task / final drain), no deadlock",
+    ck.oblige("monitor:deque every spawned task handed out exactly once (get_task / steal_task / final drain), no cell in [head,tail) refers to a task twice or to a task already handed out, no deadlock",
               "correspondence", not bad_mon, "" if not bad_mon else "%s | scenario %s" % (bad_mon[0][1]["mon"], deque_text(bad_mon[0][0]).replace("\n", " / ")))
     if bad_mon:
         report_cex(ck, "deque", bad_mon[0][0], bad_mon[0][1], deque_text(bad_mon[0][0]))
@@ -464,8 +490,46 @@ def mail_scenario(rng, kind):
     return {"owner": owner, "recv": recv, "thieves": thieves, "kind": "mail-" + kind}
 
 
+def mail_dead_scenario(rng, with_thief):
+    """Deque + mailbox together: mailed proxies whose task is extracted by the recipient BEFORE the owner reaches them
+    (handshakes w<k>), with tasks of another isolation above and/or below them, so that an isolated get_task walks down
+    past skipped tasks (tasks_omitted) to an EMPTY proxy, frees it and must leave nullptr in its cell because head/tail
+    are restored around it; followed by further spawns (opt reuse: they get the freed proxy's memory) and gets."""
+    nid = [0]
+    owner, recv = [], []
+
+    def fresh():
+        nid[0] += 1
+        return nid[0]
+    for _phase in range(rng.choice([1, 1, 2, 3])):
+        A, B = rng.sample([1, 2, 3], 2)
+        batch, nm = [], 0
+        for _ in range(rng.randrange(0, 3)):                        # below the proxies
+            batch.append("s%d:%d" % (fresh(), rng.choice([A, B, B])))
+        for _ in range(rng.randrange(1, 4)):                        # the mailed tasks, foreign tasks in between
+            batch.append("m%d:%d" % (fresh(), A))
+            nm += 1
+            if rng.random() < 0.35:
+                batch.append("s%d:%d" % (fresh(), B))
+        for _ in range(rng.choice([0, 1, 1, 2])):                   # above: skipped by get_task(A)
+            batch.append("s%d:%d" % (fresh(), B))
+        owner += batch
+        if rng.random() < 0.85:
+            recv.append("w%d" % len(owner))
+        recv += [str(rng.choice([0, 0, A])) for _ in range(rng.randrange(max(1, nm - 1), nm + 2))]
+        if rng.random() < 0.85:
+            owner.append("w%d" % len(recv))
+        owner += ["g%d" % A] * rng.randrange(1, 4)
+        for _ in range(rng.randrange(0, 3)):                        # re-use of the freed memory
+            owner.append("s%d:%d" % (fresh(), rng.choice([0, A, B])))
+        owner += ["g%d" % rng.choice([0, 0, A, B]) for _ in range(rng.randrange(0, 4))]
+    thieves = [[str(rng.choice([0, 0, 1, 2, 3])) for _ in range(rng.randrange(1, 6))]] if with_thief else []
+    return {"owner": owner, "recv": recv, "thieves": thieves, "reuse": rng.random() < 0.7, "kind": "mail-dead" + ("-thief" if with_thief else "")}
+
+
 def mail_text(sc):
-    return "owner " + " ".join(sc["owner"]) + "\nrecv " + " ".join(sc["recv"]) + "\n" + "".join("thief " + " ".join(t) + "\n" for t in sc["thieves"])
+    return ("owner " + " ".join(sc["owner"]) + "\nrecv " + " ".join(sc["recv"]) + "\n" + "".join("thief " + " ".join(t) + "\n" for t in sc["thieves"])
+            + ("opt reuse\n" if sc.get("reuse") else ""))
 
 
 MAIL_CORPUS = [
@@ -476,6 +540,20 @@ MAIL_CORPUS = [
     {"owner": ["m1:0", "g0"], "recv": ["0"], "thieves": [["0"]]},
     # one-item mailbox: pop races with the next push (late link)
     {"owner": ["m1:0", "m2:0"], "recv": ["0", "0", "0"], "thieves": []},
+    # empty proxy under tasks_omitted: the recipient takes task 1 first (handshake), task 2 of a foreign isolation lies
+    # above the proxy; get_task(1) skips task 2, frees the empty proxy, must null its cell (tail is restored above it);
+    # the next spawned task gets the freed memory
+    {"owner": ["m1:1", "s2:2", "w2", "g1", "s3:0", "g0", "g0", "g0"], "recv": ["w2", "0"], "thieves": [], "reuse": True},
+    # … with a thief around
+    {"owner": ["m1:1", "s2:2", "w2", "g1", "s3:0", "g0", "g0"], "recv": ["w2", "0"], "thieves": [["0", "0"]], "reuse": True},
+    # foreign tasks above AND below the empty proxy (pool-empty epilogue restores [H0, T0) around the hole)
+    {"owner": ["s1:2", "m2:1", "s3:2", "w2", "g1", "s4:0", "g0", "g0", "g0", "g0"], "recv": ["w3", "0"], "thieves": [], "reuse": True},
+    # two empty proxies below one foreign task
+    {"owner": ["m1:1", "m2:1", "s3:2", "w3", "g1", "s4:0", "s5:0", "g0", "g0", "g0", "g0"], "recv": ["w3", "0", "0"], "thieves": [], "reuse": True},
+    # a task of the waiter's own isolation below the empty proxy: hole-punch epilogue (pool not empty) above a nulled cell
+    {"owner": ["s1:1", "m2:1", "s3:2", "w2", "g1", "g1", "s4:0", "g0", "g0", "g0"], "recv": ["w3", "0"], "thieves": [], "reuse": True},
+    # no reuse: the stale cell would still point to the (freed) proxy object
+    {"owner": ["s1:2", "m2:1", "s3:2", "w2", "g1", "g0", "g0", "g0"], "recv": ["w3", "0"], "thieves": []},
 ]
 
 
@@ -487,11 +565,15 @@ def parse_mail(out):
         if not w:
             continue
         if w[0] == "run":
-            cur = {"ev": [], "tat": [], "tatloads": 0, "box": [], "res": {}, "mon": "", "sched": [], "x": {}, "free": []}
+            cur = {"ev": [], "tat": [], "tatloads": 0, "box": [], "res": {}, "mon": "", "sched": [], "x": {}, "free": [], "snap": [], "reuse": 0}
         elif cur is None:
             continue
         elif w[0] == "e":
             cur["ev"].append((int(w[1]), w[2], w[3], w[4], w[5], w[6]))
+        elif w[0] == "snap":
+            cur["snap"].append((len(cur["ev"]), " ".join(w[1:])))
+        elif w[0] == "reuse":
+            cur["reuse"] += 1
         elif w[0] == "t":
             cur["tat"].append((int(w[1]), w[2], w[3], w[4], w[5], w[6]))
         elif w[0] == "l":
@@ -524,14 +606,14 @@ def mail_replay(sc, r, consts):
         if o[0] == "m":
             i, iso = o[1:].split(":")
             ops.append("s%s:%s:0:%d" % (i, iso, 1 if i in dead else 0))
-        else:
+        elif o[0] != "w":                 # handshakes are not operations of the deque
             ops.append(o)
     setup = ["cfg %d %d" % (consts["minTaskPoolSize"], consts["poolGranule"]), "owner " + " ".join(ops)] + ["thief " + " ".join(t) for t in sc["thieves"]]
     ev = [((0 if e[0] == 0 else e[0] - 1),) + e[1:] for e in r["ev"]]
     res = {0: r["res"].get(0, [])}
     for k in range(len(sc["thieves"])):
         res[1 + k] = r["res"].get(2 + k, [])
-    d = model_replay("c01dq", setup, ev, res, 1 + len(sc["thieves"]),
+    d = model_replay("c01dq", setup, ev, res, 1 + len(sc["thieves"]), snaps=r["snap"],
                      final=lambda st: None if st.split()[3] == "0" else "the model read a junk cell / broke the lock protocol")
     if d:
         return "Deque: " + d
@@ -569,14 +651,20 @@ def run_mail(ck, consts):
     scs = list(MAIL_CORPUS)
     for kind, n in (("small", 6 if quick else 40), ("mixed", 8 if quick else 80), ("iso", 6 if quick else 60)):
         scs += [mail_scenario(rng, kind) for _ in range(n)]
+    scs += [mail_dead_scenario(rng, i % 3 == 2) for i in range(9 if quick else 90)]
     nrand = 12 if quick else 40
-    bad_corr, bad_mon, nruns, tol = [], [], 0, 0
+    bad_corr, bad_mon, nruns, tol, nsnap, ndead_omit, nreuse = [], [], 0, 0, 0, 0, 0
     for si, sc in enumerate(scs):
         rc, out, err = sh([exe, "rand", str(ck.seed * 1000 + si), str(nrand)], input=mail_text(sc), timeout=600)
         runs = parse_mail(out)
         for r in runs:
             nruns += 1
             tol += r["tatloads"]
+            nsnap += len(r["snap"])
+            nreuse += r["reuse"]
+            # coverage: runs in which the owner freed an empty proxy and a hole is left inside [head, tail)
+            if r["x"].get("deadowner", [[]])[0] and any("_" in sn.split()[2:] for _, sn in r["snap"]):
+                ndead_omit += 1
             ck.count(1, ("mail", sc.get("kind", "corpus"), 2 + len(sc["thieves"]),
                          tuple(sorted(set((re.sub(r"\d+", "", e[1]), e[2], e[5]) for e in r["ev"] + r["tat"] + r["box"]))), len(r["free"])))
             if r["mon"] != "ok":
@@ -590,7 +678,7 @@ def run_mail(ck, consts):
         if si in (0, len(MAIL_CORPUS)) and runs:
             ck.sample({"component": "mail", "scenario": sc, "tat_trace": runs[0]["tat"][:10], "mailbox_trace": runs[0]["box"][:10], "results": runs[0]["res"]})
     dfs_runs = 0
-    for sc in (MAIL_CORPUS[:2] if quick else MAIL_CORPUS):
+    for sc in (MAIL_CORPUS[:2] + MAIL_CORPUS[4:6] if quick else MAIL_CORPUS):
         rc, out, err = sh([exe, "dfs", "2" if quick else "3", "6000" if quick else "150000"], input=mail_text(sc), timeout=1700)
         m = re.search(r"summary runs=(\d+) bad=(\d+)", out)
         if m:
@@ -599,7 +687,9 @@ def run_mail(ck, consts):
             rs = parse_mail(out)
             bad_mon.append((sc, rs[-1] if rs else {"mon": "harness rc=%d %s" % (rc, (out + err)[-300:]), "sched": []}))
     ck.evaluations += dfs_runs
-    ck.extra.setdefault("schedules", {})["mail"] = {"random_runs": nruns, "dfs_runs": dfs_runs, "scenarios": len(scs), "tolerated_unmatched_tat_loads(steal_task is_shared check)": tol}
+    ck.extra.setdefault("schedules", {})["mail"] = {"random_runs": nruns, "dfs_runs": dfs_runs, "scenarios": len(scs), "tolerated_unmatched_tat_loads(steal_task is_shared check)": tol,
+                                                    "content_snapshots_compared": nsnap, "runs_with_freed_empty_proxy_and_hole_in_[head,tail)": ndead_omit,
+                                                    "freed_proxy_blocks_reused_by_later_tasks": nreuse}
     ok_corr = ck.oblige("corr:mail task_and_tag / my_first / my_last / next_in_mailbox / head / tail / task_pool traces replay on the Lean Proxy, Mailbox and Deque models",
                         "correspondence", not bad_corr,
                         "" if not bad_corr else "%s | scenario %s | sched %s" % (bad_corr[0][2], mail_text(bad_corr[0][0]).replace("\n", " / ")[:600], " ".join(bad_corr[0][1]["sched"])[:600]))
@@ -690,7 +780,8 @@ def run_stream(ck):
 # end-to-end programs on the instrumented runtime
 # --------------------------------------------------------------------------------------------------
 
-E2E_PROGS = ["tg_nested", "tg_tree", "pfor_affinity", "isolate", "enqueue", "cancel", "oversub"]
+E2E_PROGS = ["tg_nested", "tg_tree", "pfor_affinity", "isolate", "iso_static", "iso_affinity", "enqueue", "cancel", "oversub"]
+E2E_WRAPS = (WRAP_ALLOC_ED, WRAP_ALLOC, WRAP_DEALLOC_ED, WRAP_DEALLOC)
 
 
 def parse_e2e(out):
@@ -701,6 +792,10 @@ def parse_e2e(out):
             continue
         if w[0] == "run":
             cur = {"mon": "", "sched": [], "units": 0, "steps": 0, "threads": 0}
+        elif w[0] == "CRASH":
+            # verif::report_crashes(): a fault (use of freed task memory, ...) inside the controlled run; the schedule follows
+            cur = {"mon": "VIOLATION the runtime crashed inside the controlled run (%s %s)" % (w[1], w[2] if len(w) > 2 else ""),
+                   "sched": [], "units": 0, "steps": 0, "threads": 0}
         elif cur is None:
             continue
         elif w[0] == "units":
@@ -717,11 +812,13 @@ def parse_e2e(out):
 
 def run_e2e(ck):
     quick = ck.tier == "quick"
-    exe = build("e2e")
+    exe = build("e2e", E2E_WRAPS)
     rng = ck.rng
     cases = []
     for prog in E2E_PROGS:
-        for P in (1, 2, 3, 4):
+        # iso_static / iso_affinity need a second slot for mailing; with P = 1 they would also run into the unrelated
+        # finalize hang described in the assumptions (a nullptr cell left at the bottom of a published pool, no thief)
+        for P in ((2, 2, 3, 4) if prog.startswith("iso_") else (1, 2, 3, 4)):
             cases.append((prog, P, rng.choice([1, 2, 3]) if quick else rng.choice([1, 2, 3, 4])))
     per = 4 if quick else 110
     bad, nruns, steps, maxthreads = [], 0, 0, 0
@@ -735,7 +832,7 @@ def run_e2e(ck):
             ck.count(1, ("e2e", prog, P, size, r["threads"], r["units"]))
             if r["mon"] != "ok":
                 bad.append(((prog, P, size), r))
-        if rc not in (0, 1, 3) or (not runs and rc != 0):
+        if rc not in (0, 1, 3, 4) or (not runs and rc != 0):
             bad.append(((prog, P, size), {"mon": "harness crashed rc=%d %s" % (rc, (out + err)[-300:]), "sched": []}))
     ck.extra.setdefault("schedules", {})["e2e"] = {"random_runs": nruns, "scheduling_points": steps, "max_threads": maxthreads,
                                                    "programs": E2E_PROGS, "arena_sizes": [1, 2, 3, 4]}
@@ -763,12 +860,16 @@ def report_cex(ck, comp, sc, r, text):
 
 def run(ck):
     ck.rule = ("E-SHIM on the instrumented runtime: hand-written last-task / isolation scenarios + seeded random owner/thief programs "
-               "(small, mixed, isolation, growth k>64) under seeded random schedules, each access replayed on the Lean models; "
+               "(small, mixed, isolation, growth k>64; deque+mailbox: mailed proxies emptied by the recipient before the owner reaches "
+               "them below/above skipped foreign-isolation tasks, with handshakes and re-use of the freed proxy memory) under seeded "
+               "random schedules, each access replayed on the Lean models and the white-box content of task_pool_ptr[head..tail) compared "
+               "with the model's pool after every owner operation; "
                "bounded-preemption DFS of the 2-3 thread scenarios with exactly-once monitors; distinct = (component, scenario kind, "
                "#threads, set of (variable, access kind, outcome) seen, result counts)")
     ck.trusted += ["harness/shim (atomic shim + baton scheduler)", "harness/c01/*.cpp monitors and address→variable maps",
                    "trace replay in checks/c01.py (sampled correspondence)",
-                   "-Wl,--wrap interposition of r1::deallocate / r1::notify_waiters in the wt and mail harnesses"]
+                   "-Wl,--wrap interposition of r1::deallocate / r1::notify_waiters in the wt and mail harnesses, of r1::allocate / "
+                   "r1::deallocate (forwarding to the real pool) in the e2e harness"]
     ck.assumptions += [
         "proved (Lean, all schedules, any number of thieves / pushers / threads): Deque conservation, no duplication, no loss, last-task "
         "arbitration on the full arena_slot model (growth/compaction under the lock, isolation holes, empty proxies); task_proxy two-sided "
@@ -785,7 +886,15 @@ def run(ck):
         "weak CAS never fails spuriously under the shim; thief-side proxy skipping (recipient idle) is an oracle bit in the Deque model and is "
         "exercised in the harness through isolation only",
         "an early / extra notify_waiters is a spurious wake-up, not a property failure: such a change breaks the trace correspondence "
-        "(no-failing-input-found) but no monitor"]
+        "(no-failing-input-found) but no monitor",
+        "the cells of task_pool_ptr[] are plain memory (no events in the access trace): their content is tied to the model by white-box "
+        "snapshots of [head, tail) taken by the owner after each of its operations (Lean driver command `dump`); small-object pool "
+        "reclamation itself is not modelled - the component harness re-uses freed proxy blocks LIFO like the pool, the e2e harness runs the "
+        "real pool with r1::allocate/deallocate interposed (freed-twice and stale-cell monitors)",
+        "observed while building the iso_* e2e programs, outside this property (reported to the coordinator, not a C01 failure): with "
+        "max_allowed_parallelism = 1 a task pool can be left published with only nullptr cells at its bottom (holes punched by isolated "
+        "get_task calls; only a thief or an owner pop that reaches them removes them), arena::has_tasks() stays true and a blocking "
+        "tbb::finalize() then spins forever in threading_control::wait_last_reference; the iso_* programs therefore run with P >= 2"]
     consts = gen(ck)
     ck.lean_stage()
     run_deque(ck, consts)
@@ -802,7 +911,7 @@ COMPONENT_EXE = {"deque": ("deque", ()), "mail": ("mail", MAIL_WRAPS), "task_str
 def replay(ck, obj):
     r = obj["replay"]
     if r["component"] == "e2e":
-        exe = build("e2e")
+        exe = build("e2e", E2E_WRAPS)
         os.makedirs(os.path.join(common.BUILD, PID), exist_ok=True)
         f = os.path.join(common.BUILD, PID, "replay_sched.txt")
         open(f, "w").write(" ".join(r["schedule"]))
